@@ -122,6 +122,31 @@ def gen(c, chunkings):
             p = params("gcm_enc")
             p.update(iv=rb(il), taglen=tl)
             add(f="gcm_enc", api="oneshot", msg=rb(rng.choice([0, 5, 16, 47])), **p)
+    # GCM with an IV that is not 12 bytes long: J0 comes out of GHASH, so its low counter bytes can be anything -- IVs are searched (reference GHASH) for which
+    # J0 ends in ff, 00, ffff, 00ff, fe: the inc32 that makes the first counter block then carries (or must not)
+    for cipher in ("sm4", "aes"):
+        key = rb(16)
+        h = T.E(cipher, key, b"\0" * 16)
+        want = {b"\xff": None, b"\x00": None, b"\xfe": None, b"\xff\xff": None, b"\x00\xff": None, b"\xff\x00": None} if not c.quick else {b"\xff": None, b"\x00": None, b"\xff\xff": None}
+        for il in (8, 13, 16, 20):
+            found = dict(want)
+            for t_ in range(70000 if any(len(w) > 1 for w in want) else 2000):
+                iv = rb(il)
+                j0 = K.gcm_j0(T, h, iv)
+                for w in found:
+                    if found[w] is None and j0.endswith(w):
+                        found[w] = iv
+                if all(v is not None for v in found.values()):
+                    break
+                if il != 13 and t_ > 3000:        # the two-byte patterns are searched for one IV length only
+                    break
+            for w, iv in found.items():
+                if iv is None:
+                    continue
+                for n_ in (1, 16, 33):
+                    p = {"c": cipher, "key": key, "iv": iv, "aad": rb(5), "taglen": 16}
+                    add(f="gcm_enc", api="oneshot", msg=rb(n_), **p)
+                    add(f="gcm_dec", api="oneshot", msg=b"".join(K.gcm_enc(T, cipher, key, iv, p["aad"], rb(n_), 16)), **p)
     # counter carries inside the CCM counter field: a long nonce leaves a 2-byte counter, which crosses a byte boundary after 255 blocks
     for nl, ln in ((13, 4079), (13, 4080), (13, 4081), (13, 4097), (12, 4112)) + (((13, 8192), (13, 65519), (11, 70000)) if not c.quick else ()):
         for f in ("ccm_enc", "ccm_dec"):
